@@ -668,6 +668,21 @@ fn main() {
         // child: one scenario on stdin
         let mut line = String::new();
         std::io::stdin().lock().read_line(&mut line).unwrap();
+        // watchdog: a scenario that runs away (time or memory) ends as `HANG`
+        std::thread::spawn(|| {
+            let t0 = std::time::Instant::now();
+            loop {
+                std::thread::sleep(std::time::Duration::from_millis(100));
+                let rss_pages = std::fs::read_to_string("/proc/self/statm")
+                    .ok()
+                    .and_then(|s| s.split_whitespace().nth(1).and_then(|x| x.parse::<u64>().ok()))
+                    .unwrap_or(0);
+                if t0.elapsed().as_secs() > 90 || rss_pages > 400_000 {
+                    println!("HANG");
+                    std::process::exit(4);
+                }
+            }
+        });
         std::panic::set_hook(Box::new(|info| {
             let s = info.location().map(|l| format!("{}:{}", l.file(), l.line())).unwrap_or_default();
             println!("PANIC {}", s);
